@@ -142,9 +142,9 @@ def civil_fields(o, t, tag):
 
 
 @obligation(prop="C05", tier="quick", timeout=900, features=FE, probe="rule_from_timespec", also=("C16",),
-            desc="UtcDateTime::from_timespec(unix_time): Ok exactly when the calendar year of the instant fits in i32, and then `year` IS that calendar year (the field the rule evaluator reads), hour/minute/second are the UTC clock reading, month is in 1..=12 and the day within that month's length; never a panic. Thorough tier in addition: (year, month, day) denote exactly the day floor(t / 86400). The month-walk loop is unrolled 13 times and the bound is refuted as a panic edge",
+            desc="UtcDateTime::from_timespec(unix_time): Ok exactly when the calendar year of the instant fits in i32, and then `year` IS that calendar year (the field the rule evaluator reads), hour/minute/second are the UTC clock reading, month is in 1..=12 and the day within that month's length; never a panic. The month-walk loop is unrolled 13 times and the bound is refuted as a panic edge",
             bounds="all i64 Unix times; loop unrolled 13x (12 months + exit), exceeding it is a checked panic edge",
-            outside="quick tier: month/day exactness (range only); decided in the thorough tier")
+            outside="that (month, day) are exactly the day floor(t / 86400) within the year: only their ranges are decided (the exactness query needs minutes per residue class of the year and was dropped); the rule evaluator reads only `year`")
 def c05_m_from_timespec(o):
     o.unwind("::from_timespec", 13)
     t = o.input("t", "i64")
@@ -168,13 +168,6 @@ def c05_m_from_timespec(o):
     month_splits = [fm == k for k in range(1, 13)] + [z3.Or(fm < 1, fm > 12)]
     o.claim("month_and_day_in_range", z3.Implies(ok, z3.And(fm >= 1, fm <= 12, fd >= 1, fd <= dim_expr(fy, fm))), splits=month_splits)
     o.claim("year_is_the_calendar_year", z3.Implies(ok, fy == Y), splits=[z3.And(fm >= 3, fm <= 12), z3.And(fm >= 1, fm <= 2), z3.Or(fm < 1, fm > 12)])
-    if o.tier == "thorough":
-        # month and day against the day count: decided only in the thorough tier (split on the month and on the residues
-        # of year and year - 1 that fix the floor terms; several splits need minutes)
-        res = [z3.And(fy % 4 != 0), z3.And(fy % 4 == 0, fy % 100 != 0), z3.And(fy % 100 == 0, fy % 400 != 0), fy % 400 == 0]
-        res1 = [z3.And((fy - 1) % 4 != 0), z3.And((fy - 1) % 4 == 0, (fy - 1) % 100 != 0), z3.And((fy - 1) % 100 == 0, (fy - 1) % 400 != 0), (fy - 1) % 400 == 0]
-        date_splits = [z3.And(fm == k, a, b) for k in range(1, 13) for a in res for b in res1] + [z3.Or(fm < 1, fm > 12)]
-        o.claim("date_fields_denote_the_day", z3.Implies(ok, days_ref(fy, fm, fd) == days), splits=date_splits)
 
 
 # ---- the rule as a whole: AlternateTime lookups ---------------------------------------------------------------------
